@@ -149,8 +149,8 @@ def make_run(W, shape, known_active=None):
                 target.unregister(hs[m])
                 live.remove(m)
             last = i == len(ops) - 1
-            sel = 3 if not live else (shape["probes"][i] if not last else 0)
-            probes = CH if last and live else ([CH[sel]] if sel < 3 else [])
+            sel = (shape["probes"][i] if not last else 0)
+            probes = CH if last else ([CH[sel]] if sel < 3 else [])
             if live and any(md.get("typeann") is not None for md in pool):
                 probes = list(probes) + ["cls"]
             for c in probes:
@@ -158,10 +158,14 @@ def make_run(W, shape, known_active=None):
                 ref, hs2, LOG2 = mk()
                 for mm in live:
                     ref.register(hs2[mm], priority=prio(mm))
-                exp = probe(ref, LOG2, c)
+                exp = probe(ref, LOG2, c) if live else None
+                if not live:
+                    got = (got[0], got[1][:1])      # (the wording of the rejection names the function's generated identifier)
                 trace.append(dict(after=f"{op} h{m}", probe=c, got=got, fresh=exp))
-                if got != exp:
+                if live and got != exp:
                     ok = False
+                if not live and (got[0] or got[1][0] == "ret"):
+                    ok = False          # nothing is registered any more: no method may run
         return Verdict(ok, (), dict(api="Ovld", trace=trace), [f"probes{len(trace)}"], nontrivial=len(trace) >= 2)
 
     def sig_of(m):
